@@ -919,4 +919,57 @@ def run_one_line(tier="quick", seed=0):
     return res
 
 
-FAMILIES = {"cli_one_line": run_one_line, "cli_git_failures": run_git_failures, "cli_template_output": run_template_output, "cli_check_verdict": run_verdict, "cli_discipline": run, "cli_pipe": run_pipe, "cli_bumps": run_bumps}
+TIER_BOUND = ("6 smart presets x 14 override / bump vectors (pre-release label / number, post, dev, epoch, bumps; clean and dirty / ahead states) through the real binary: "
+              "the rendering must be the one the preset gives for the *resulting* state, i.e. equal to re-rendering the emitted object with the same preset "
+              "(`--source stdin --schema <preset>`), for semver and pep440")
+_TIER_VECTORS = [
+    ["1.2.3"], ["1.2.3", "--distance", "2"], ["1.2.3", "--distance", "0", "--no-dirty"],
+    ["1.2.3-rc.1"], ["1.2.3-rc.1", "--distance", "3"],
+    ["1.2.3", "--pre-release-label", "alpha"], ["1.2.3", "--pre-release-label", "alpha", "--pre-release-num", "3"],
+    ["1.2.3", "--bump-pre-release-label", "beta"], ["1.2.3-alpha.1", "--post", "3"], ["1.2.3-alpha.1", "--bump-post"],
+    ["1.2.3", "--post", "2"], ["1.2.3", "--bump-major"], ["1.2.3-rc.2", "--bump-patch"], ["1.2.3", "--epoch", "1", "--dev", "4"],
+]
+
+
+def run_tier(tier="quick", seed=0):
+    """C06: "the smart presets … choose their tier solely from the dirty, distance, pre-release and post state" — of the version that is rendered."""
+    t0 = time.time()
+    res = {"family": "cli_tier", "bound": TIER_BOUND, "cases": 0}
+    ok, msg = rengine.build_zerv()
+    if not ok:
+        res.update(status="error", lines=["the zerv binary does not build from the working tree: " + msg[-400:]])
+        return res
+    zerv = rengine.ZERV
+    work = tempfile.mkdtemp(prefix="verif_tier_")
+    classes = {}
+    try:
+        env = {k: v for k, v in os.environ.items() if not k.startswith("RUST_LOG") and not k.startswith("ZERV_")}
+        env.update(TZ="Pacific/Kiritimati", HOME=work, NO_COLOR="1")
+        for preset in ("standard", "standard-context", "standard-no-context", "calver", "calver-context", "calver-no-context"):
+            for vec in _TIER_VECTORS:
+                argv = ["version"] + NONE + vec + ["--schema", preset, "--bumped-timestamp", "1710511845", "--bumped-branch", "main", "--bumped-commit-hash", "abcdef1234"]
+                rc, obj, _ = _run(zerv, argv + ["--output-format", "zerv"], None, work, env)
+                res["cases"] += 1
+                if rc != 0:
+                    continue
+                for fmt in ("semver", "pep440"):
+                    rd, direct, _ = _run(zerv, argv + ["--output-format", fmt], None, work, env)
+                    rp, again, _ = _run(zerv, ["version", "--source", "stdin", "--schema", preset, "--output-format", fmt], obj, work, env)
+                    if rd != rp or direct != again:
+                        overrides = any(a.startswith(("--pre-release", "--post", "--dev", "--epoch", "--bump-")) for a in vec)
+                        cls = "tier-chosen-before-overrides" if overrides else "tier-differs"
+                        classes.setdefault(cls, []).append(
+                            f"CEX cli_tier class={cls} `zerv {' '.join(argv)} --output-format {fmt}` prints {direct.decode('utf-8', 'replace').strip()!r}, but the preset "
+                            f"{preset!r} applied to the resulting state (the emitted object on stdin) gives {again.decode('utf-8', 'replace').strip()!r}")
+    finally:
+        shutil.rmtree(work, ignore_errors=True)
+    res["wall_s"] = round(time.time() - t0, 2)
+    if classes:
+        lines = [l for v in classes.values() for l in v]
+        res.update(status="cex", lines=lines[:5], classes={k: v[:5] for k, v in classes.items()})
+    else:
+        res.update(status="no-cex", lines=[])
+    return res
+
+
+FAMILIES = {"cli_tier": run_tier, "cli_one_line": run_one_line, "cli_git_failures": run_git_failures, "cli_template_output": run_template_output, "cli_check_verdict": run_verdict, "cli_discipline": run, "cli_pipe": run_pipe, "cli_bumps": run_bumps}
